@@ -5,6 +5,8 @@ import tchain
 OPS = [("(debounce 5)", 5), ("(debounce 2)", 2), ("(throttle 5 leading)", 5), ("(throttle 5 tailing)", 5), ("(throttle 5 all)", 5),
        ("(throttle 2 all)", 2), ("(buffer_with_time 5)", 5), ("(buffer_with_count_and_time 2 5)", 5), ("(buffer_with_count_and_time 0 5)", 5),
        ("(buffer_with_count_and_time 3 2)", 2),
+       # a count that is a limit "never reached": usize::MAX, 2^33 (flush by time only)
+       ("(buffer_with_count_and_time big 5)", 5), ("(buffer_with_count_and_time mid 2)", 2),
        # a window of length zero: its timer is due as soon as it is polled
        ("(throttle 0 tailing)", 2), ("(throttle 0 all)", 2), ("(throttle 0 leading)", 2), ("(debounce 0)", 2)]
 # (buffer_with_time with a zero period is left out: its repeating task re-arms a timer that is due at once, so a single poll
